@@ -1,9 +1,9 @@
 package main
 
 import (
-	"os"
 	"fmt"
 	"go/token"
+	"os"
 	"strconv"
 	"strings"
 
@@ -195,7 +195,7 @@ type execOpts struct {
 	// NoDynInline: leave calls through function values as call effects even when the path resolves them to a
 	// local function literal (for per-call-site rules that examine the call itself)
 	NoDynInline bool
-	abandoned    *int
+	abandoned   *int
 }
 
 type executor struct {
@@ -225,11 +225,11 @@ type pstate struct {
 	epoch   int
 	seq     int
 	locals  map[*ssa.Alloc]*Term
-	stored  map[string]int           // address key -> number of stores so far on the path
-	elems   map[elemKey]*Term        // elements of local array literals (copy-on-write, shared between forks)
+	stored  map[string]int              // address key -> number of stores so far on the path
+	elems   map[elemKey]*Term           // elements of local array literals (copy-on-write, shared between forks)
 	maps    map[*ssa.MakeMap][]mapEntry // local map literals with constant keys (copy-on-write)
-	frames  []actFrame               // activations of inlined callees (innermost last); entries are immutable
-	subst   map[*ssa.Parameter]*Term // parameters of the inlined activations (copy-on-write)
+	frames  []actFrame                  // activations of inlined callees (innermost last); entries are immutable
+	subst   map[*ssa.Parameter]*Term    // parameters of the inlined activations (copy-on-write)
 	tc      *TermCtx
 }
 
